@@ -1719,4 +1719,172 @@ def refMinDec (cfg : Cfg) (hpol : cfg.policy = .min) (hvt : cfg.vt = .bigdecimal
         repeat' split
         all_goals omega)
 
+/-! ### B4: `set_sum` over bigdecimal.  No truncation anywhere on this path (merge after the fix of F6), so
+scales are unbounded and the typed value is the number itself: two texts agree when they parse to
+decimals that are equal as numbers (`Dec.Eqv`). -/
+
+/-- the typed reading of a `set_sum` operand, for an operand decoder `arg` -/
+def wOfSSR {M : Type} (arg : Bytes → M) (v : Bytes) : SS M :=
+  if isPrefix pfxSet v then .set (arg (v.drop 4)) else .sum (arg (v.drop 4))
+
+theorem wOfSSR_sum {M : Type} (arg : Bytes → M) (t : Bytes) : wOfSSR arg (pfxSum ++ t) = .sum (arg t) := by
+  simp [wOfSSR, pfxSum, pfxSet, isPrefix]
+
+theorem wOfSSR_set {M : Type} (arg : Bytes → M) (t : Bytes) : wOfSSR arg (pfxSet ++ t) = .set (arg t) := by
+  simp [wOfSSR, pfxSet, isPrefix]
+
+/-- like `refSetSum`, for a representation relation `Rep` on the untagged text -/
+def refSetSumR (cfg : Cfg) {M : Type} (C : Combine M) (Rep : Bytes → M → Prop) (okText : Bytes → Prop)
+    (arg : Bytes → M) (vt : VT)
+    (hrepArg : ∀ t, okText t → Rep t (arg t))
+    (hsem : ∀ tag c i t, IsTag tag → Rep c i → okText t →
+      ∃ r, stdSem cfg (.setSum vt) (some (tag ++ c)) (pfxSum ++ t) = .ok (tag ++ r) ∧ Rep r (C.op i (arg t)))
+    (hmrgSet : ∀ x t, mergeVal cfg x (pfxSet ++ t) = some (some (pfxSum ++ t)))
+    (hmrgN : ∀ t b, Rep t b → ∃ r, mergeVal cfg none (pfxSum ++ t) = some (some (pfxSum ++ r)) ∧ Rep r b)
+    (hmrgS : ∀ tag c a t b, IsTag tag → Rep c a → Rep t b →
+      ∃ r, mergeVal cfg (some (tag ++ c)) (pfxSum ++ t) = some (some (pfxSum ++ r)) ∧ Rep r (C.op a b)) :
+    Refine cfg (stdSem cfg) (algSetSum C) where
+  okOp op := op.kind = .setSum vt ∧ ∃ t, okText t ∧ (op.val = pfxSum ++ t ∨ op.val = pfxSet ++ t)
+  wOf op := wOfSSR arg op.val
+  RF b i := ∃ tag t, IsTag tag ∧ b = tag ++ t ∧ Rep t i
+  RP b ti := ∃ t, b = (if ti.1 then pfxSet else pfxSum) ++ t ∧ Rep t ti.2
+  notDel op h := by rw [h.1]; simp
+  stepF op x x' fx hok hr hke := by
+    obtain ⟨hkind, t, ht, hval⟩ := hok
+    rw [semShape_setSum cfg vt op x hkind] at hke
+    rcases hval with hval | hval
+    · rw [hval, wOfSSR_sum]
+      rw [hval] at hke
+      cases x <;> cases fx <;> simp only [ORel_none_none, ORel_some_some, ORel_none_some, ORel_some_none] at hr
+      · simp only [stdSem, semSetSum_none, Option.some.injEq] at hke; subst hke
+        exact ⟨pfxSum, t, Or.inl rfl, rfl, hrepArg t ht⟩
+      · obtain ⟨tag, c, h2, h3, h4⟩ := hr
+        subst h3
+        obtain ⟨r, s1, s2⟩ := hsem tag c _ t h2 h4 ht
+        rw [s1] at hke
+        simp only [Option.some.injEq] at hke; subst hke
+        exact ⟨tag, r, h2, rfl, s2⟩
+    · rw [hval, wOfSSR_set]
+      rw [hval] at hke
+      have : x' = some (pfxSet ++ t) := by
+        cases x
+        · simp only [stdSem, semSetSum_none, Option.some.injEq] at hke; exact hke.symm
+        · simp only [stdSem, semSetSum_set, Option.some.injEq] at hke; exact hke.symm
+      subst this
+      exact ⟨pfxSet, t, Or.inr rfl, rfl, hrepArg t ht⟩
+  stepP op x x' fx hok hr hke := by
+    obtain ⟨hkind, t, ht, hval⟩ := hok
+    rw [semShape_setSum cfg vt op x hkind] at hke
+    rcases hval with hval | hval
+    · rw [hval, wOfSSR_sum]
+      rw [hval] at hke
+      cases x <;> cases fx <;> simp only [ORel_none_none, ORel_some_some, ORel_none_some, ORel_some_none] at hr
+      · simp only [stdSem, semSetSum_none, Option.some.injEq] at hke; subst hke
+        exact ⟨t, rfl, hrepArg t ht⟩
+      · rename_i ti
+        obtain ⟨tg, a⟩ := ti
+        obtain ⟨c, h3, h4⟩ := hr
+        subst h3
+        have htag : IsTag (if tg = true then pfxSet else pfxSum) := by
+          cases tg
+          · exact Or.inl rfl
+          · exact Or.inr rfl
+        obtain ⟨r, s1, s2⟩ := hsem _ c _ t htag h4 ht
+        rw [s1] at hke
+        simp only [Option.some.injEq] at hke; subst hke
+        exact ⟨r, rfl, s2⟩
+    · rw [hval, wOfSSR_set]
+      rw [hval] at hke
+      have : x' = some (pfxSet ++ t) := by
+        cases x
+        · simp only [stdSem, semSetSum_none, Option.some.injEq] at hke; exact hke.symm
+        · simp only [stdSem, semSetSum_set, Option.some.injEq] at hke; exact hke.symm
+      subst this
+      cases fx with
+      | none => exact ⟨t, rfl, hrepArg t ht⟩
+      | some ti => obtain ⟨tg, a⟩ := ti; exact ⟨t, rfl, hrepArg t ht⟩
+  mrg x x' v fx pv hr hv hm := by
+    obtain ⟨tg, b⟩ := pv
+    obtain ⟨t, hv, hb⟩ := hv
+    subst hv
+    cases tg
+    · simp only [Bool.false_eq_true, ↓reduceIte] at hm
+      cases x <;> cases fx <;> simp only [ORel_none_none, ORel_some_some, ORel_none_some, ORel_some_none] at hr
+      · obtain ⟨r, s1, s2⟩ := hmrgN t b hb
+        rw [s1] at hm
+        simp only [Option.some.injEq] at hm; subst hm
+        exact ⟨pfxSum, r, Or.inl rfl, rfl, s2⟩
+      · obtain ⟨tag, c, h2, h3, h4⟩ := hr
+        subst h3
+        obtain ⟨r, s1, s2⟩ := hmrgS tag c _ t b h2 h4 hb
+        rw [s1] at hm
+        simp only [Option.some.injEq] at hm; subst hm
+        exact ⟨pfxSum, r, Or.inl rfl, rfl, s2⟩
+    · simp only [↓reduceIte] at hm
+      rw [hmrgSet] at hm
+      simp only [Option.some.injEq] at hm; subst hm
+      cases fx <;> exact ⟨pfxSum, t, Or.inl rfl, rfl, hb⟩
+
+/-- `set_sum` over bigdecimal -/
+def refSetSumDec (cfg : Cfg) (hpol : cfg.policy = .setSum) (hvt : cfg.vt = .bigdecimal) :
+    Refine cfg (stdSem cfg) (algSetSum ⟨Dec.add, Dec.add_assoc⟩) :=
+  refSetSumR cfg ⟨Dec.add, Dec.add_assoc⟩ RepDecQ (fun t => ∃ d, Dec.parse t = some d)
+    (fun t => (Dec.parse t).getD ⟨0, 0⟩) .bigdecimal
+    (fun t ht => by
+      obtain ⟨d, hd⟩ := ht
+      exact ⟨d, hd, by simp [hd, Dec.Eqv.refl]⟩)
+    (fun tag c i t htag hc ht => by
+      obtain ⟨d, hd⟩ := ht
+      obtain ⟨p, p1, p2⟩ := hc
+      obtain ⟨t1, t2, t3⟩ := tag_take htag c
+      obtain ⟨s1, s2, s3⟩ := tag_take (Or.inl rfl) t
+      refine ⟨(p.add d).render, ?_, ?_⟩
+      · simp only [stdSem, semSetSum, t1, t2, t3, s1, s2, s3, ↓reduceIte, p1, hd]
+      · obtain ⟨q, q1, q2⟩ := repDecQ_render (p.add d)
+        exact ⟨q, q1, q2.trans (by simpa [hd] using Dec.add_congr_left d p2)⟩)
+    (fun x t => by
+      have : isPrefix pfxSet (pfxSet ++ t) = true := by simp [pfxSet, isPrefix]
+      simp [mergeVal, mergeGen, hpol, hvt, this, (tag_take (Or.inr rfl) t).2.1])
+    (fun t b hb => by
+      obtain ⟨d, d1, d2⟩ := hb
+      have : isPrefix pfxSet (pfxSum ++ t) = false := by simp [pfxSet, pfxSum, isPrefix]
+      refine ⟨((⟨0, 0⟩ : Dec).add d).render, ?_, ?_⟩
+      · simp [mergeVal, mergeGen, hpol, hvt, this, foundOrZeroPrefixedDec, (tag_take (Or.inl rfl) t).2.1, d1]
+      · obtain ⟨q, q1, q2⟩ := repDecQ_render ((⟨0, 0⟩ : Dec).add d)
+        refine ⟨q, q1, q2.trans (Dec.Eqv.trans ?_ d2)⟩
+        unfold Dec.Eqv Dec.add Dec.rescaleUp
+        simp)
+    (fun tag c a t b htag hc hb => by
+      obtain ⟨d, d1, d2⟩ := hb
+      obtain ⟨e, e1, e2⟩ := hc
+      have : isPrefix pfxSet (pfxSum ++ t) = false := by simp [pfxSet, pfxSum, isPrefix]
+      refine ⟨(e.add d).render, ?_, ?_⟩
+      · simp [mergeVal, mergeGen, hpol, hvt, this, foundOrZeroPrefixedDec, (tag_take (Or.inl rfl) t).2.1,
+          (tag_take htag c).2.1, d1, e1]
+      · obtain ⟨q, q1, q2⟩ := repDecQ_render (e.add d)
+        exact ⟨q, q1, q2.trans (Dec.add_congr e2 d2)⟩)
+
+/-- typed agreement for `set_sum` bigdecimal: same keys, and the tag-stripped texts parse to decimals
+that are equal as numbers -/
+theorem typed_eq_of_repDecQ {cfg : Cfg} (hpol : cfg.policy = .setSum) {x y : Option Bytes} {f : Option Dec}
+    (hx : ORel (fun b i => ∃ tag t, IsTag tag ∧ b = tag ++ t ∧ RepDecQ t i) x f)
+    (hy : ORel (fun b i => ∃ tag t, IsTag tag ∧ b = tag ++ t ∧ RepDecQ t i) y f) :
+    x.isSome = y.isSome ∧ ∀ bx by', stripTag cfg x = some bx → stripTag cfg y = some by' →
+      ∃ dx dy, Dec.parse bx = some dx ∧ Dec.parse by' = some dy ∧ dx.Eqv dy := by
+  have key : ∀ tag t, IsTag tag → stripTag cfg (some (tag ++ t)) = some t := by
+    intro tag t ht
+    rcases ht with rfl | rfl <;> simp [stripTag, hpol, pfxSum, pfxSet, isPrefix]
+  cases x <;> cases y <;> cases f <;>
+    simp only [ORel_none_none, ORel_some_some, ORel_none_some, ORel_some_none] at hx hy
+  · exact ⟨rfl, by intro bx by' h; simp [stripTag] at h⟩
+  · obtain ⟨t1, c1, h1, rfl, dx, px, ex⟩ := hx
+    obtain ⟨t2, c2, h2, rfl, dy, py, ey⟩ := hy
+    refine ⟨rfl, ?_⟩
+    intro bx by' hbx hby
+    rw [key _ _ h1] at hbx
+    rw [key _ _ h2] at hby
+    simp only [Option.some.injEq] at hbx hby
+    subst hbx; subst hby
+    exact ⟨dx, dy, px, py, ex.trans ey.symm⟩
+
 end SV
